@@ -1111,16 +1111,29 @@ class Engine:
                         yield s3, r
                     continue
                 self.callee_backedges.append((s2, site))
-        # (3) continuation: iterator exhausted
+        # (3) continuation: the iteration is over — the source is exhausted or a take_while predicate failed (that path keeps
+        #     its conditions: "an element was available, the loop was left")
         havoc(st)
         if nm == "try_for_each" and out_ty.startswith("std::result::Result"):
-            yield st, ("agg", "std::result::Result", "Ok", (("0", ("agg", "<tuple>", None, ())),))
+            done = ("agg", "std::result::Result", "Ok", (("0", ("agg", "<tuple>", None, ())),))
         elif nm == "try_for_each" and out_ty.startswith("std::option::Option"):
-            yield st, some(("agg", "<tuple>", None, ()))
+            done = some(("agg", "<tuple>", None, ()))
         elif nm == "try_for_each":
-            yield st, self.opaque(st, "std::iter::Iterator::try_for_each", list(args))
+            done = self.opaque(st, "std::iter::Iterator::try_for_each", list(args))
         else:
-            yield st, ("c", None)
+            done = ("c", None)
+        ends = 0
+        self.in_discovery.add(("fused-end", site))
+        try:
+            outs = [(s1, e) for s1, e in self.iter_elements(st.fork(), args[0], depth, site)]
+        finally:
+            self.in_discovery.discard(("fused-end", site))
+        for s1, e in outs:
+            if e is ITER_END:
+                ends += 1
+                yield s1, done
+        if not ends:
+            yield st, done
 
     def _split_try(self, st, r, out_ty):
         """(state, 'fail' | 'continue') for the result of a try_for_each closure"""
